@@ -79,6 +79,7 @@ class _Worker:
         self.blocked_on = None
         self.steps = 0
         self.last_line = None
+        self.paused = False
         self.thread = threading.Thread(target=self._main, daemon=True)
 
     def _main(self):
@@ -145,6 +146,14 @@ class ThreadLab:
         if me is not None:
             self.park(me)
 
+    def pause(self):
+        """Voluntary yield of the calling worker (it sleeps / blocks in I/O): any runnable thread, itself included, may run
+        next and the switch does not count against the pre-emption bound."""
+        me = self.current()
+        if me is not None:
+            me.paused = True
+            self.park(me)
+
     def _runnable(self):
         return [w for w in self.workers if not w.finished and (w.blocked_on is None or not w.blocked_on.locked())]
 
@@ -159,8 +168,11 @@ class ThreadLab:
             if not runnable:
                 self.deadlock = any(not w.finished for w in self.workers)
                 break
+            if current is not None and current.paused:
+                current.paused = False
+                current = None
             if current is None or current not in runnable:
-                # forced switch (thread finished or blocked): choosing the successor is free
+                # forced switch (thread finished, blocked or paused): choosing the successor is free
                 idx = self.pick(len(runnable), "next_thread") if len(runnable) > 1 else 0
                 current = runnable[idx]
             elif len(runnable) > 1 and self.switches < self.max_switches:
